@@ -664,10 +664,11 @@ def run_job(args):
         if deadline is not None:
             # thorough tier: a goal the solver gives up on within its time limit is counted as
             # undecided (outside the claim of this run), never as discharged
-            gave_up = [x for x in P.inconclusive if "solver " in x or "unknown" in x or "timeout" in x]
-            out["undecided_soft"] += len(gave_up)
-            out["goals"] -= len(gave_up)
-            P.inconclusive = [x for x in P.inconclusive if x not in gave_up]
+            gave_up = [x for x in P.inconclusive if ": solver " in x]
+            wit_unknown = [x for x in P.inconclusive if "reachability witness unknown" in x]
+            out["undecided_soft"] += len(gave_up) + len(wit_unknown)
+            out["goals"] -= len(gave_up)            # witnesses were never counted as goals
+            P.inconclusive = [x for x in P.inconclusive if x not in gave_up and x not in wit_unknown]
         out["inconclusive"].extend(P.inconclusive)
         for f in P.failures:
             out["fail"].append({"goal": f["goal"], "case": out["desc"], "cex": f["cex"]})
